@@ -41,7 +41,13 @@ impl TryFrom<Repr> for UBig {
         } else if value.denominator.is_one() {
             Ok(mag)
         } else {
-            Err(ConversionError::LossOfPrecision)
+            // the fraction is not necessarily in lowest terms (Relaxed)
+            let (q, r) = mag.div_rem(value.denominator);
+            if r.is_zero() {
+                Ok(q)
+            } else {
+                Err(ConversionError::LossOfPrecision)
+            }
         }
     }
 }
@@ -53,7 +59,13 @@ impl TryFrom<Repr> for IBig {
         if value.denominator.is_one() {
             Ok(value.numerator)
         } else {
-            Err(ConversionError::LossOfPrecision)
+            // the fraction is not necessarily in lowest terms (Relaxed)
+            let (q, r) = value.numerator.div_rem(IBig::from(value.denominator));
+            if r.is_zero() {
+                Ok(q)
+            } else {
+                Err(ConversionError::LossOfPrecision)
+            }
         }
     }
 }
